@@ -811,6 +811,60 @@ def _analyse_var(prog, fn, v, sv, rets):
 
 
 # ------------------------------------------------------------------------ dangling fields / alias free
+_MFWS = {}
+
+
+def _may_fail_without_store(prog, callee, argi):
+    """Does `callee` (defined in the program, returning a status) have a path to a failing return on which it never stores through
+    its parameter number argi?  Then `free(o->f); res = callee(.., &o->f); if (res != KSI_OK) goto cleanup;` leaves o->f pointing
+    to freed memory on the failure edge.  Unknown callees and callees that store on every path (e.g. `*out = NULL` first) -> False."""
+    key = (callee, argi)
+    if key in _MFWS:
+        return _MFWS[key]
+    _MFWS[key] = False
+    from .flow import ERR, OKS, StatusGraph, return_blocks
+    cands = [f for f in prog.functions.get(callee, [])] if hasattr(prog, "functions") else []
+    if not cands:
+        try:
+            cands = [prog.fn(callee)]
+        except Exception:
+            cands = []
+    res = False
+    for cf in cands:
+        if argi >= len(cf.params):
+            continue
+        pn = cf.params[argi]["n"]
+        sg = StatusGraph(cf)
+        if sg.var is None:
+            continue
+        storing = set()
+        forwarded = False
+        for bb, blk in cf.blocks.items():
+            for el in blk["elems"]:
+                if not isinstance(el["e"], dict):
+                    continue
+                for m in walk(el["e"]):
+                    if m.get("k") == "asg":
+                        l = strip(m["l"])
+                        if l.get("k") == "un" and l["op"] == "*" and is_var(l["e"], pn):
+                            storing.add(bb)
+                    if m.get("k") == "call":
+                        for a2 in m["a"]:
+                            if is_var(strip(a2), pn):
+                                forwarded = True          # handed on to another function: not understood, assume it stores
+        if forwarded or not storing:
+            continue
+        if cf.entry in storing:
+            continue
+        seen = sg.explore(removed=lambda e: e.dst in storing)
+        for (rb, ri) in return_blocks(cf):
+            for st in (OKS, ERR):
+                if (rb, st) in seen and ERR in sg.block_out(rb, st, upto=ri):
+                    res = True
+    _MFWS[key] = res
+    return res
+
+
 def dangling_fields(prog, fn):
     """Release of `param->...->field` (or of a local that is a copy of such a field) after which some
     path reaches the return without the field being reassigned and without the object itself being
@@ -846,11 +900,16 @@ def dangling_fields(prog, fn):
                         return True
                 if m.get("k") == "call" and m.get("fn") and not is_release(m.get("fn")):
                     # a setter / helper given the address of the field or the object with this field name in its name
-                    for a2 in m["a"]:
+                    for ai, a2 in enumerate(m["a"]):
                         k3 = lvalue_key(strip(a2), fn)
                         if k3 == "&" + field:
+                            if _may_fail_without_store(prog, m["fn"], ai):
+                                # the callee leaves *out untouched when it fails: the field is reassigned on the success edge only
+                                cond_calls.add(m["fn"])
+                                continue
                             return True
             return False
+        cond_calls = set()
         elems = fn.blocks[b]["elems"]
         done = False
         for j in range(i + 1, len(elems)):
@@ -859,8 +918,12 @@ def dangling_fields(prog, fn):
                 break
         if done:
             continue
+        from .flow import g_ok
+
+        def success_edge(e):
+            return any(g_ok(cn).holds(fn, e) for cn in cond_calls)
         seen = {b: None}
-        work = [e.dst for e in fn.succ[b]]
+        work = [e.dst for e in fn.succ[b] if not success_edge(e)]
         for x in work:
             seen.setdefault(x, b)
         wit = None
@@ -877,7 +940,7 @@ def dangling_fields(prog, fn):
                 wit = list(reversed(p))
                 break
             for e in fn.succ[c]:
-                if e.dst not in seen:
+                if e.dst not in seen and not success_edge(e):
                     seen[e.dst] = c
                     work.append(e.dst)
         if wit is not None:
